@@ -506,4 +506,163 @@ def decodeAll (specOf : Nat → List Spec) : Nat → List Byte → Option (List 
       | some rs => some ({ time, type, depth, addr, data := none } :: rs)
       | none => none
 
+/-! ## where a function's spec list comes from (option sources)
+
+  writer   libmcount/mcount.c   mcount_trigger_init: uftrace_setup_trigger(UFTRACE_TRIGGER), then
+                                uftrace_setup_argument(UFTRACE_ARGUMENT), then uftrace_setup_retval(UFTRACE_RETVAL)
+  info     utils/auto-args.c    extract_trigger_args (called by cmds/info.c fill_arg_spec): the `argspec:` /
+                                `retspec:` lines = what was taken out of -T, then -A / -R
+  reader   utils/fstack.c       setup_fstack_args: uftrace_setup_argument(argspec), uftrace_setup_retval(retspec),
+                                then the old-format pass uftrace_setup_retval(argspec) when "retval" occurs in argspec
+  both     utils/filter.c       setup_trigger / setup_trigger_action (which actions an option accepts),
+                                update_filter (item without specs: auto-args table / DWARF), add_arg_spec
+
+The writer lays a payload out by walking its list, the reader decodes it by walking the list it built
+from the info file: the two lists are derived independently from the option strings.  Names and patterns
+are abstract: an item carries the set of functions its pattern matches (regexec / fnmatch / strcmp are
+opaque) and whether the pattern is a plain name (PATT_SIMPLE: "exact").
+`XFix` selects the repaired behaviour for three findings in the info transformation:
+  ret     (C09-TRIGRET)   a `retval/<fmt>` trigger action is stored as written (today: as plain `retval`)
+  auto    (C09-TRIGAUTO)  `auto-args` next to explicit specs in one trigger is not stored (the writer ignores
+                          it there; today the reader looks the function up in the auto-args table / DWARF)
+  compat  (C09-OLDFMT)    the old-format pass only runs when there is no `retspec:` line (today: whenever the
+                          characters "retval" occur in the argspec line). -/
+
+/-- an entry of `filter->args`: the spec and `exact` (set by a plain-name match) -/
+structure LSpec where
+  sp : Spec
+  exact : Bool
+  deriving DecidableEq, Repr, Inhabited
+
+/-- add_arg_spec: "the same argument" -/
+def sameKey (a o : Spec) : Bool :=
+  a.ty == o.ty && (if a.ty ≤ 1 then a.idx == o.idx else a.loc == o.loc)
+
+/-- add_arg_spec, found: `if (exact_match || !oarg->exact)` format, size, type, location are replaced; the
+    entry keeps its place in the list and its `idx` -/
+def overwrite (o : LSpec) (a : Spec) (exact : Bool) : LSpec :=
+  if exact || !o.exact then
+    ⟨{ o.sp with fmt := a.fmt, size := a.size, ty := a.ty, loc := a.loc, sregs := a.sregs }, exact⟩
+  else o
+
+/-- add_arg_spec: the first entry with the same key is updated, otherwise the spec is appended -/
+def addArgSpec (exact : Bool) : List LSpec → Spec → List LSpec
+  | [], a => [⟨a, exact⟩]
+  | o :: r, a => if sameKey a o.sp then overwrite o a exact :: r else o :: addArgSpec exact r a
+
+/-- which option a string came from: -T (flags 0), -A (TRIGGER_FL_ARGUMENT), -R (TRIGGER_FL_RETVAL) -/
+inductive Src | trig | arg | ret
+  deriving DecidableEq, Repr
+
+/-- one `name@action,action,…` item of an option string -/
+structure Item where
+  tag : Nat := 0               -- position in its option string (for the harness)
+  fns : List Nat               -- the functions whose name the pattern matches
+  exact : Bool                 -- PATT_SIMPLE
+  specs : List Spec            -- the arg / fparg / retval actions in the order written
+  autoArgs : Bool := false     -- an `auto-args` action
+  nameRetval : Bool := false   -- the characters "retval" occur in the name part
+  deriving DecidableEq, Repr, Inhabited
+
+/-- setup_trigger_action: `if (orig_flags && !(orig_flags & action->compat_flags)) break;` -/
+def compat (s : Src) (sp : Spec) : Bool :=
+  match s with
+  | .trig => true
+  | .arg => !sp.isRet
+  | .ret => sp.isRet
+
+/-- the (exact, spec) pairs update_filter hands to add_arg_spec for function f, in order.
+    `auto f isRet` = what find_auto_argspec / find_auto_retspec know about f (auto-args table, DWARF):
+    used when the item has no spec of its own. -/
+def itemAdds (auto : Nat → Bool → List Spec) (s : Src) (it : Item) (f : Nat) : List (Bool × Spec) :=
+  if it.fns.contains f then
+    let ps := it.specs.filter (compat s)
+    let l :=
+      if ps.isEmpty then
+        (if s == .arg || (s == .trig && it.autoArgs) then auto f false else []) ++
+        (if s == .ret || (s == .trig && it.autoArgs) then auto f true else [])
+      else ps
+    l.map (fun sp => (it.exact, sp))
+  else []
+
+def addsOf (auto : Nat → Bool → List Spec) (s : Src) (items : List Item) (f : Nat) : List (Bool × Spec) :=
+  items.flatMap (fun it => itemAdds auto s it f)
+
+def buildFrom (l : List LSpec) (adds : List (Bool × Spec)) : List LSpec :=
+  adds.foldl (fun l a => addArgSpec a.1 l a.2) l
+
+def build (adds : List (Bool × Spec)) : List LSpec := buildFrom [] adds
+
+/-- libmcount: triggers first, then -A, then -R -/
+def writerAdds (auto : Nat → Bool → List Spec) (T A R : List Item) (f : Nat) : List (Bool × Spec) :=
+  addsOf auto .trig T f ++ addsOf auto .arg A f ++ addsOf auto .ret R f
+
+def writerList (auto : Nat → Bool → List Spec) (T A R : List Item) (f : Nat) : List LSpec :=
+  build (writerAdds auto T A R f)
+
+structure XFix where
+  ret : Bool
+  auto : Bool
+  compat : Bool
+  deriving DecidableEq, Repr
+
+def XFix.none : XFix := ⟨false, false, false⟩
+def XFix.all : XFix := ⟨true, true, true⟩
+
+/-- `rval = "retval"` -/
+def DEFRET : Spec := { idx := 0, fmt := .auto, size := 8 }
+
+/-- the bare `name` extract_trigger_args appends to both strings for an `auto-args` action -/
+def xAuto (xf : XFix) (it : Item) : List Item :=
+  if it.autoArgs && !(xf.auto && !it.specs.isEmpty) then [{ it with specs := [], autoArgs := false }] else []
+
+/-- extract_trigger_args, the argument string: per trigger `name@<arg and fparg actions>`, then the bare name -/
+def xArgs (xf : XFix) (it : Item) : List Item :=
+  (if (it.specs.filter (fun sp => !sp.isRet)).isEmpty then []
+   else [{ it with specs := it.specs.filter (fun sp => !sp.isRet), autoArgs := false }]) ++ xAuto xf it
+
+/-- extract_trigger_args, the return-value string: per trigger `name@retval`, then the bare name -/
+def xRets (xf : XFix) (it : Item) : List Item :=
+  (if (it.specs.filter (fun sp => sp.isRet)).isEmpty then []
+   else [{ it with specs := if xf.ret then it.specs.filter (fun sp => sp.isRet) else [DEFRET], autoArgs := false }])
+  ++ xAuto xf it
+
+def extractArgs (xf : XFix) (T : List Item) : List Item := T.flatMap (xArgs xf)
+def extractRets (xf : XFix) (T : List Item) : List Item := T.flatMap (xRets xf)
+
+/-- the `argspec:` and `retspec:` lines of the info file -/
+def infoArgs (xf : XFix) (T A : List Item) : List Item := extractArgs xf T ++ A
+def infoRets (xf : XFix) (T R : List Item) : List Item := extractRets xf T ++ R
+
+/-- `strstr(argspec, "retval")` -/
+def mentionsRetval (as : List Item) : Bool :=
+  as.any (fun it => it.nameRetval || it.specs.any (fun sp => sp.isRet))
+
+/-- does setup_fstack_args run the old-format pass -/
+def oldPass (xf : XFix) (as rs : List Item) : Bool :=
+  mentionsRetval as && !(xf.compat && !rs.isEmpty)
+
+/-- setup_fstack_args on the two info lines -/
+def readerAddsOf (auto : Nat → Bool → List Spec) (xf : XFix) (as rs : List Item) (f : Nat) : List (Bool × Spec) :=
+  addsOf auto .arg as f ++ addsOf auto .ret rs f ++ (if oldPass xf as rs then addsOf auto .ret as f else [])
+
+def readerAdds (auto : Nat → Bool → List Spec) (xf : XFix) (T A R : List Item) (f : Nat) : List (Bool × Spec) :=
+  readerAddsOf auto xf (infoArgs xf T A) (infoRets xf T R) f
+
+def readerList (auto : Nat → Bool → List Spec) (xf : XFix) (T A R : List Item) (f : Nat) : List LSpec :=
+  build (readerAdds auto xf T A R f)
+
+/-- the layout of a payload: the specs walked by save_to_argbuf / read_task_args, in list order -/
+def layout (isRet : Bool) (l : List LSpec) : List Spec := sel isRet (l.map (·.sp))
+
+/-! ## `uftrace dump` (raw output): cmds/dump.c pr_args / pr_retval, the `print_raw` branch
+
+`long long val = 0; memcpy(&val, ptr, spec->size); pr_out("%c%d: 0x%0*llx", …, spec->size * 2, val)` for every
+format that is not a string, a pointer, an enum or a struct — also for a `long double` (size 10).
+Result: (the number printed, the number of bytes memcpy stores into the 8-byte `val`).
+`fixed` (finding C09-DUMPF80): a value wider than `val` is printed from its bytes, nothing is copied. -/
+def dumpRaw (fixed : Bool) (size : Nat) (data : List Byte) : Nat × Nat :=
+  if fixed && decide (size > 8) then (ofLe (data.take size), 0)
+  else (ofLe (data.take (min size 8)), size)
+
 end Uft.Argbuf
